@@ -3,6 +3,7 @@ package worldx
 import (
 	"fmt"
 	"math/rand/v2"
+	"sort"
 )
 
 func oneOf[T any](rng *rand.Rand, xs ...T) T { return xs[rng.IntN(len(xs))] }
@@ -40,6 +41,17 @@ var faultKinds = map[string][]string{
 	"api.status-patch":  {"err"},
 	"api.create":        {"err"},
 	"disk.put":          {"err"},
+}
+
+// kind-specific API sites: their counters advance on calls for that kind only, so a planned fault
+// can land on, say, the agent's pod lookup of its second collection pass
+var kindSites = map[string][]string{
+	"api.get.Pod":                  {"err"},
+	"api.get.Node":                 {"err"},
+	"api.get.NodeRuntime":          {"err"},
+	"api.list.PodList":             {"err"},
+	"api.status-update.Node":       {"err", "err-after", "conflict"},
+	"api.status-patch.NodeRuntime": {"err"},
 }
 
 var faultSites = []string{"cloud.create", "cloud.attach", "cloud.detach", "cloud.delete", "cloud.assign4", "cloud.assign6", "cloud.unassign4", "cloud.unassign6",
@@ -122,6 +134,8 @@ func generate(rng *rand.Rand, prop, tier string) *Scenario {
 		op := Op{Kind: pickW(rng, kinds, weights), Pod: rng.IntN(npods), Async: rng.IntN(2) == 0}
 		op.DelayMs = oneOf(rng, 0, 0, 0, 100, 1000, 4000)
 		switch op.Kind {
+		case "up":
+			op.AddDelayMs = oneOf(rng, 0, 0, 0, 500, 3000)
 		case "down":
 			op.Order = pickW(rng, []string{"del-obj", "obj-del", "obj-only", "del-only"}, []int{50, 25, 15, 10})
 		case "sleep":
@@ -141,6 +155,19 @@ func generate(rng *rand.Rand, prop, tier string) *Scenario {
 				if rng.Float64() < rate {
 					sc.Faults = append(sc.Faults, PlannedFault{Site: site, Nth: nth, Kind: oneOf(rng, faultKinds[site]...)})
 				}
+			}
+		}
+		ks := make([]string, 0, len(kindSites))
+		for k := range kindSites {
+			ks = append(ks, k)
+		}
+		sort.Strings(ks)
+		for _, site := range ks {
+			if rng.IntN(3) != 0 {
+				continue
+			}
+			for k := 0; k < 1+rng.IntN(4); k++ {
+				sc.Faults = append(sc.Faults, PlannedFault{Site: site, Nth: rng.IntN(60), Kind: oneOf(rng, kindSites[site]...)})
 			}
 		}
 	} else {
